@@ -194,13 +194,12 @@ def mkHandler (d : Decl) : UState → List TVal → UState × Except Err Resp :=
 
 /-- `StandardCommands::system_version`, `ErrorCommands::system_error_next/_count` (commands.rs). -/
 def stdCmds (spec : IfaceSpec) : List (Cmd UState) :=
-  (if spec.std then [{ argTys := [], handler := fun s _ => (s, .ok (.chars (strBytes "1999.0"))) }] else []) ++
+  (if spec.std then [{ argTys := [], handler := fun s _ => (s, .ok systemVersion) }] else []) ++
   (if spec.errc then
     [{ argTys := [], handler := fun s _ =>
-        match s.queue.pop with
-        | (some e, q) => ({ s with queue := q }, .ok (.seq [.int e.number, .str e.descBytes]))
-        | (none, q) => ({ s with queue := q }, .ok (.seq [.int 0, .str []])) },
-     { argTys := [], handler := fun s _ => (s, .ok (.int s.queue.count)) }]
+        let (q, r) := systemErrorNext s.queue
+        ({ s with queue := q }, .ok r) },
+     { argTys := [], handler := fun s _ => (s, .ok (systemErrorCount s.queue)) }]
    else [])
 
 /-- Number the nodes (ghost tags) in depth-first order and list `(tag, path)`. -/
@@ -236,7 +235,7 @@ def buildIface (spec : IfaceSpec) : Option Built :=
              iface := { root := root', cmds := userCmds ++ stdCmds spec,
                         onError := fun s e =>
                           let s := { s with errs := s.errs ++ [e] }
-                          if s.hasQueue then { s with queue := s.queue.push e } else s } }
+                          if s.hasQueue then { s with queue := handleErrorQueue s.queue e } else s } }
 
 def initState (spec : IfaceSpec) : UState :=
   { queue := { cap := spec.qcap }, hasQueue := spec.errc }
